@@ -118,6 +118,14 @@ def check_table(w, rep, rule="C06.table"):
             b2 = [s for s in st.orelse if isinstance(s, ast.Assign) and _is_name(s.targets[0], "x")]
             if b1 and b2:
                 sq_ok = ast.unparse(b1[0].value) in ("sympy.sqrt(u)", "sqrt(u)") and _is_name(b2[0].value, "u")
+        elif isinstance(st, ast.Assign) and len(st.targets) == 1 and _is_name(st.targets[0], "x") and isinstance(st.value, ast.IfExp):
+            # the same selection as a conditional expression, in either polarity
+            v = st.value
+            t_, a_, b_ = v.test, v.body, v.orelse
+            if isinstance(t_, ast.UnaryOp) and isinstance(t_.op, ast.Not):
+                t_, a_, b_ = t_.operand, b_, a_
+            if _is_name(t_, "input_squared"):
+                sq_ok = ast.unparse(a_) in ("sympy.sqrt(u)", "sqrt(u)") and _is_name(b_, "u")
     rep.check(rule, "squared table substitutes x = sqrt(u), plain table x = u", sq_ok, "derive_series does not substitute sqrt(u) for x in the squared table", where=(REL, ds.lineno))
     mod = {ast.unparse(st.targets[0]): ast.unparse(st.value) for st in sf.tree.body if isinstance(st, ast.Assign) and len(st.targets) == 1}
     rep.check(rule, "SERIES / SQUARED_SERIES are derive_series(False) / derive_series(True)",
@@ -162,11 +170,14 @@ def scan_value(w, rep, rule, inst, val, point, sites, where):
                     site = s
                     break
         fn, rel, line, op = site if site else ("?", where[0], where[1], a.kind)
-        key = (fn, op, a.kind)
+        key = (fn.split(".")[0], op, a.kind)
         if key in seen:
             continue
         seen.add(key)
-        rep.fail(rule, "%s: %s in %s" % (inst, a.kind, fn), "%s [%s]" % (why, short(Poly.atom(a), 100)), where=(rel, line))
+        # named by the class that owns the operation, not by the method: a helper method extracted inside the class keeps
+        # the finding's identity (entry point + kind of operation + owner)
+        owner = fn.split(".")[0] if "." in fn else fn
+        rep.fail(rule, "%s: %s in %s" % (inst, a.kind, owner), "%s [in %s: %s]" % (why, fn, short(Poly.atom(a), 100)), where=(rel, line))
 
 
 def check_singularities(w, rep, tier):
